@@ -100,8 +100,9 @@ H('c09_f1_n4', 'packet_builder', {}, est=320, timeout=2400, mem='XL',
   bounds='all 4-byte buffers fed to a fresh builder', symbolic='4 bytes', encodes=_pb_enc)
 H('c09_f1_header_value', 'packet_builder', {'C09': 'quick', 'C14': 'quick'}, est=60, timeout=900, mem='M',
   bounds='all 1-4 byte Remaining Length encodings (incl. non-minimal) with value > 0, header only', symbolic='5 bytes, k in 1..=4', encodes=_pb_enc)
-H('c09_f3_overlong_rl', 'packet_builder', {'C09': 'quick', 'C05': 'quick'}, est=200, timeout=1200, mem='M',
-  bounds='fixed header + 4 continuation bytes (all other bits symbolic), split at any of 5 points, followed by a frame [h,1,d]', symbolic='8 bytes, cut position', encodes=_pb_enc)
+for _c in (1, 2, 3, 4, 5):
+    H('c09_f3_overlong_rl_cut%d' % _c, 'packet_builder', {}, est=200, timeout=1800, mem='M',
+      bounds='fixed header + 4 continuation bytes (all other bits symbolic) fed %s, followed by a frame [h,1,d]' % ('in one piece' if _c == 5 else 'split after byte %d' % _c), symbolic='8 bytes', encodes=_pb_enc)
 for nm, q in (('s1_three_frames', 'quick'), ('s2_nonminimal', 'thorough'), ('s3_four_byte_len', 'quick'), ('s4_error_then_frame', 'quick'),
               ('s5_partial_tail', 'thorough'), ('s6_three_byte_len', 'thorough')):
     H('c09_f2_' + nm, 'packet_builder', {'C09': q}, est=200, timeout=2400, mem='L',
@@ -390,7 +391,7 @@ LONG_UWS = STEP_UWS + [(r'verif_harness', 140), (r'8property', 3), (r'mqtt_strin
 for _h in HARNESSES:
     if _h['file'] == 'codec' and (_h['name'].startswith(('c02_v5_', 'c04_v5_')) or _h['name'] in ('c04_subscribe_family_prefixes', 'c04_suback_family_prefixes', 'c04_v311_connect_prefixes', 'c03_numeric_tables', 'c02_v311_connect', 'c02_v311_subscribe_family')):
         _h['uws'] = LONG_UWS if 'props12' in _h['name'] else CODEC_UWS
-for _n in ('c09_f3_overlong_rl', 'c02_string_new_n3'):
+for _n in ('c02_string_new_n3',):
     for _h in HARNESSES:
         if _h['name'] == _n:
             _h['mem'] = 'L'
@@ -426,11 +427,11 @@ QUICK = {
             'c02_v5_puback', 'c02_v5_publish_q1', 'c02_v5_connack_disconnect_auth', 'c18_values_fixed_width'],
     'C04': ['c04_vbi_decode_all', 'c04_string_decode_n6', 'c04_binary_decode_n6', 'c04_v311_puback_n4', 'c04_v311_connack_n3', 'c02_fixed_two_byte_packets',
             'c04_v311_publish_struct', 'c04_v5_puback_n4', 'c04_v5_publish_struct', 'c04_v5_suback_nonminimal_proplen', 'c04_v311_connect_prefixes', 'c18_values_subscription_identifier'],
-    'C05': ['c09_f3_overlong_rl', 'st_recv_publish_q2_v311', 'st_recv_connect_v5_server', 'st_id_calls_total', 'st_dispatch_client_v311', 'c04_v311_connect_prefixes'],
+    'C05': ['c09_f3_overlong_rl_cut5', 'c09_f3_overlong_rl_cut2', 'st_recv_publish_q2_v311', 'st_recv_connect_v5_server', 'st_id_calls_total', 'st_dispatch_client_v311', 'c04_v311_connect_prefixes'],
     'C06': ['st_send_publish_v311_never_dropped', 'st_recv_puback_v311_persistent', 'st_recv_connack_v311_resume', 'st_send_pubrel_states_v311', 'st_recv_pubrec_v5_flow'],
     'C07': ['st_recv_publish_q2_v311', 'st_recv_pubrel_flow', 'st_send_pubrec_v5_handled', 'st_handled_export_restore', 'st_reuse_client_v311_clean_connect'],
     'C08': ['c08_pidman_step_u16', 'st_id_calls_total', 'st_notify_closed_any', 'st_recv_puback_v311_persistent', 'st_send_publish_v5_flow', 'st_send_publish_v5_limit', 'st_recv_unsuback_v5', 'st_recv_suback_v311'],
-    'C09': ['c09_f1_header_value', 'c09_f3_overlong_rl', 'c09_f2_s1_three_frames', 'c09_f2_s3_four_byte_len', 'c09_f2_s4_error_then_frame', 'st_recv_two_packets_one_buffer'],
+    'C09': ['c09_f1_header_value', 'c09_f3_overlong_rl_cut1', 'c09_f3_overlong_rl_cut2', 'c09_f3_overlong_rl_cut3', 'c09_f3_overlong_rl_cut4', 'c09_f3_overlong_rl_cut5', 'c09_f2_s1_three_frames', 'c09_f2_s3_four_byte_len', 'c09_f2_s4_error_then_frame', 'st_recv_two_packets_one_buffer'],
     'C10': ['st_notify_closed_any', 'st_reuse_client_v311_clean_connect', 'st_recv_connect_v311_server'],
     'C11': ['c11_const_table', 'c11_cell_client_v311_subscribe', 'c11_cell_server_v5_connack', 'c11_cell_any_v5_publish_q1', 'c11_cell_client_v311_pubrel', 'c11_cell_server_v5_pubrec'],
     'C12': ['st_recv_puback_v5_flow', 'st_send_publish_v5_flow', 'st_erase_stored_publish_v5', 'st_send_pubrec_v5_handled', 'st_send_connack_v5_resume_count', 'st_recv_publish_v5_recv_max'],
